@@ -60,7 +60,8 @@ DROPPED = [
     "`while i < descriptors.len() { let desc = &mut descriptors[i]; BODY i += 1; }` with the unit's invariant (R8, BODY verbatim); `for _ in 0..n` gets a ghost label + invariant (R10); "
     "the stateless closure of the length check `|key| match key { .. len() != n_paths }` gets a parameter type + ghost `ensures` if present (R10, optional); the function is verified with "
     "#[verifier::loop_isolation(false)] (the expansion loop sees what the length check in front of it established)",
-    "c16_derive: find_derivation_index_for_spk: `for i in range {` gets a ghost label + invariant (R10); no loop rewrite (Verus' native `for` over Range<u32>)",
+    "c16_derive: find_derivation_index_for_spk: `for VAR in range {` gets a ghost label + invariant, the `let D = ...derived_descriptor(secp);` statements an extensionality hint "
+    "(R10, local names read off the text); no loop rewrite (Verus' native `for` over Range<u32>)",
     "c16_derive: TranslateErr::into_outer_err (`match impossible {}`: zero-arm match, not supported by Verus) is a signature-only stub with an arbitrary result",
     "c16_derive: NOT verified: DerivationResult::unwrap (panics by design), parse_descriptor / to_string_with_secret (secret keys, strings), xkey_network (iter_pk loops), TryFrom (one-line forwarder to into_definite)",
 ]
@@ -74,6 +75,14 @@ impl ScriptBuf { pub uninterp spec fn bytes(&self) -> Seq<u8>; }
 impl Script { pub uninterp spec fn bytes(&self) -> Seq<u8>; }
 impl PartialEq<Script> for ScriptBuf { #[verifier::external_body] fn eq(&self, o: &Script) -> bool { unimplemented!() } }
 impl vstd::std_specs::cmp::PartialEqSpecImpl<Script> for ScriptBuf {
+    open spec fn obeys_eq_spec() -> bool { true }
+    open spec fn eq_spec(&self, o: &Script) -> bool { self.bytes() == o.bytes() }
+}
+// the other spelling of the same comparison: `buf.as_script() == script` (ScriptBuf derefs to the Script with the same bytes;
+// `Script == Script` compares the bytes)
+impl ScriptBuf { #[verifier::external_body] pub fn as_script(&self) -> (r: &Script) ensures r.bytes() == self.bytes() { unimplemented!() } }
+impl PartialEq<Script> for Script { #[verifier::external_body] fn eq(&self, o: &Script) -> bool { unimplemented!() } }
+impl vstd::std_specs::cmp::PartialEqSpecImpl<Script> for Script {
     open spec fn obeys_eq_spec() -> bool { true }
     open spec fn eq_spec(&self, o: &Script) -> bool { self.bytes() == o.bytes() }
 }
@@ -519,6 +528,29 @@ def impl_with_fn(repo, rel, impl, fn, inner=""):
     raise AnchorLost("%s: no `impl %s` block with fn %s" % (rel, impl, fn))
 
 
+
+@rule("R10")
+def R10_FIND_INDEX(text):
+    """Ghost annotations of find_derivation_index_for_spk, anchored on structure; every local name is read off the text:
+      * the first `for VAR in RANGE {` gets the ghost iterator label and the invariant "no index before VAR matches" (required);
+      * the statement `let D = <...>.derived_descriptor(<secp>);` that binds the derived descriptor -- before the loop (descriptor
+        without wildcard) and inside it (descriptor at index VAR), however the chain in front of `.derived_descriptor` is split over
+        statements -- is followed by the extensionality hint on D's key list (optional: ghost code only)."""
+    m = re.search(r"for (\w+) in ([^{]*?) \{", text)
+    if not m:
+        return None
+    var, rng = m.groups()
+    let = r"(let (\w+) = [^;]*?\.derived_descriptor\(\s*\w+\s*\);)"
+    head = re.sub(let, lambda k: k.group(1) + "\n            proof { if %s.keys@ =~= Seq::new(self.keys@.len(), |i: int| the_public_key(self.keys@[i])) { } }"
+                  % k.group(2), text[:m.start()], count=1)
+    tail = re.sub(let, lambda k: k.group(1) + "\n            proof { if %s.keys@ =~= keys_pub_at(*self, %s) { } }" % (k.group(2), var),
+                  text[m.end():], count=1)
+    loop = ("for %s in it: %s\n            invariant\n                desc_ctx_valid(*self), desc_has_wildcard(*self),\n"
+            "                forall|j: u32| range.start <= j < range.start + it.index() ==> !matches_at(*self, j, script_pubkey.bytes()),\n"
+            "        {" % (var, rng))
+    return head + loop + tail
+
+
 def build(repo):
     vf = VerusFile(NAME, repo)
     # ---- the key layer: prelude, real types, oracle vocabulary of units/c16_keys.py (imported) -------------------------------
@@ -526,8 +558,9 @@ def build(repo):
     vf.raw(SCRIPT, keep_vis=True)
     vf.trust("the prelude of units/c16_keys.py (secp256k1 / bitcoin::PublicKey / bip32 stubs, Xpub::derive_pub with the uninterpreted ckd_pub_path, slice::from_ref)",
              "imported unchanged (K.PRELUDE); see the trusted list of c16_keys")
-    vf.trust("ScriptBuf / Script (opaque, uninterpreted `bytes`), impl PartialEq<Script> for ScriptBuf + PartialEqSpecImpl, enum Error { MultipathDescLenMismatch, Other } + Display",
-             "bitcoin crate: `ScriptBuf == Script` compares the bytes; crate::Error reduced to the variant these functions produce")
+    vf.trust("ScriptBuf / Script (opaque, uninterpreted `bytes`), impl PartialEq<Script> for ScriptBuf / for Script + PartialEqSpecImpl, ScriptBuf::as_script (external_body), "
+             "enum Error { MultipathDescLenMismatch, Other } + Display",
+             "bitcoin crate: `ScriptBuf == Script` and `Script == Script` compare the bytes, `as_script` borrows the same bytes; crate::Error reduced to the variant these functions produce")
     vf.item(KEY, "trait:InnerXKey", rewrites=[sub("R7", r"trait InnerXKey\s*:\s*fmt::Display\s*\+\s*FromStr", "trait InnerXKey: Sized")])
     with vf.block("impl InnerXKey for bip32::Xpub"):
         vf.fn(KEY, "impl:InnerXKey for bip32::Xpub/fn:xkey_fingerprint", assumed=True)
@@ -713,11 +746,6 @@ impl DefiniteDescriptorKey {
 
     # ---- index -> concrete descriptor; search over a range; multipath expansion -----------------------------------------------------
     OKD = "Ok::<Option<(u32, Descriptor<PublicKey>)>, NonDefiniteKeyError>"
-    FOR_INV = ("for i in it: \\1\n            invariant\n                desc_ctx_valid(*self), desc_has_wildcard(*self),\n"
-               "                forall|j: u32| range.start <= j < range.start + it.index() ==> !matches_at(*self, j, script_pubkey.bytes()),\n"
-               "        {")
-    HINT = ("\n            proof { if concrete.keys@ =~= keys_pub_at(*self, i) { } }")
-    HINT0 = ("\n            proof { if concrete.keys@ =~= Seq::new(self.keys@.len(), |i: int| the_public_key(self.keys@[i])) { } }")
     with vf.block("impl Descriptor<DescriptorPublicKey>"):
         vf.fn(DMOD, F + "derived_descriptor", qual="Descriptor", props=PROPS, rewrites=[STRIP_ATTRS],
               contract=Contract(requires=["desc_ctx_valid(*self)"], ensures=[
@@ -726,9 +754,7 @@ impl DefiniteDescriptorKey {
                   C("error_is_some_keys_error", "r is Err ==> some_key_fails_at(*self, index, r->Err_0)"),
               ]))
         vf.fn(DMOD, F + "find_derivation_index_for_spk", qual="Descriptor", props=PROPS,
-              rewrites=[sub("R10", r"for i in ([^{]*?) \{", FOR_INV, count=1),
-                        sub("R10", r"(self\.into_definite\(\)\?\.derived_descriptor\(secp\);)", r"\1" + HINT0, count=1, required=False),
-                        sub("R10", r"(\.into_result\(\)\?\s*\.derived_descriptor\(secp\);)", r"\1" + HINT, count=1, required=False)],
+              rewrites=[R10_FIND_INDEX],
               contract=Contract(requires=["desc_ctx_valid(*self)"], ensures=[
                   # ranged descriptor (BIP380 `/*`)
                   C("found_index_is_in_the_range", "desc_has_wildcard(*self) ==> (r matches Ok(Some(p)) ==> range.start <= p.0 < range.end)"),
